@@ -71,7 +71,8 @@ func zzC05_stream() {
 	var hbh []uint32
 	for i := 0; i < m; i++ {
 		// body sizes: empty, minimal, just below / at / just above the pooled buffer
-		bl := [5]int{0, 8, MessageBufferLength - 4, MessageBufferLength, MessageBufferLength + 4}[vChoice("bodysize", 5)]
+		// and declared lengths that are not a multiple of four (a peer that leaves the last AVP's padding out)
+		bl := [8]int{0, 8, MessageBufferLength - 4, MessageBufferLength, MessageBufferLength + 4, 9, 11, MessageBufferLength - 3}[vChoice("bodysize", vParam("SIZES", 8))]
 		body := zzOneAVPBody("body", bl)
 		mb := zzMessageBytes(body, 0x80, 257, app)
 		id := vU32("hbh")
@@ -112,9 +113,17 @@ func zzC05_stream() {
 		if i > 0 {
 			start = ends[i-1]
 		}
-		vAssert(e2 == nil && len(out) == ends[i]-start, "message carries exactly its own bytes")
+		own := ends[i] - start
+		vAssert(e2 == nil && len(out) == 20+paddedLen(own-20), "message carries exactly its own bytes")
 		for j := range out {
-			vAssert(out[j] == stream[start+j], "bytes of one message are never attributed to another")
+			if j >= 1 && j <= 3 {
+				continue // the re-serialised length field counts the padding the peer left out
+			}
+			if j < own {
+				vAssert(out[j] == stream[start+j], "bytes of one message are never attributed to another")
+			} else {
+				vAssert(out[j] == 0, "bytes of the next message never fill this one's padding")
+			}
 		}
 	}
 	msg, err := ReadMessage(r, d)
